@@ -1,7 +1,7 @@
 """C09 - yylineno equals one plus the number of newlines consumed
 (DESIGN.md section 2, C09)."""
 import itertools
-from .. import regex as R, harness as H, specgen, spellings as SP
+from .. import regex as R, harness as H, bufharness as BH, specgen, spellings as SP
 from ..check import Check, pmap
 
 A, B, NL = R.lit('a'), R.lit('b'), R.lit(10)
@@ -168,11 +168,30 @@ def run(tier):
                          case={"cmd": v["cmd"], "viol": {k: v[k] for k in v if k not in ("spec", "tables", "cmd")}},
                          files={"s.l": v["spec"], "s_tables.h": v["tables"]})
         ck.sample({"job": job["tag"], "first": job["groups"][0].label, "executions": sm["executions"]})
+    # per-buffer (reentrant, c99) and per-scanner (non-reentrant) counts under buffer histories (round-7 seed C09-r7m1): the buffer driver
+    # with %option yylineno; the count is compared at every action, after every yyinput(), and as the user reads it back between calls.
+    # No buffer operation consumes input, so none of them (flush, switch, push, pop, restart) may change the count of any buffer.
+    dev = 3 if tier == "quick" else 4
+    full = 0x1fff & ~(1 << 12)
+    bjobs = []
+    for api in ("NR", "R", "C99"):
+        for ro in ((1, 2) if tier == "quick" else (1, 2, None)):
+            kn = {"VF_BUDGET_DEFAULT": dev, "VF_BUDGET_TOTAL": dev, "VF_CALLMASK": full, "VF_MAX_OPS": dev, "VF_ACTION_PUSH": 1, "VF_ACTION_INPUT": 1,
+                  "VF_BUF_LINENO": 1}
+            if ro:
+                kn["VF_READ_ONE"] = ro
+            bjobs.append(BH.make_job(api, [None], kn, "buflineno-%s-%s" % (api, ro), options=["yylineno", "noyyalloc", "noyyrealloc", "noyyfree"], cdefs=["VF_LEDGER"]))
+    bt = BH.run_jobs(ck, "C09", bjobs)
+    tot["executions"] += bt["executions"]; tot["tokens"] += bt["tokens"]; tot["choice_points"] += bt["choice_points"]; tot["nontrivial"] += bt["nontrivial"]
+    ck.cov.update(per_buffer_counts=dict(executions=bt["executions"], tokens=bt["tokens"], yyinput_calls=bt["inputs"],
+                                         buffer_calls=dict(zip(["yylex", "create+switch", "create+push", "pop", "switch", "flush", "delete", "scan_bytes",
+                                                                "scan_string", "scan_buffer", "scan_buffer(bad)", "yyrestart"], bt["calls"]))))
+    ck.guard(bt["executions"] > 100000 and bt["calls"][5] > 1000 and bt["calls"][4] > 1000, "buffer histories with yylineno hardly exercised")
     ck.cov.update(states=tot["choice_points"] + tot["inputs"], transitions=tot["tokens"] + tot["op_effects"],
                   traces_validated_against_impl=tot["executions"], evaluations=tot["executions"], distinct_nontrivial=tot["nontrivial"],
                   pattern_groups=ngroups, inputs=tot["inputs"],
                   rule="every newline-capable pattern form x every input over {a,\\n,b} up to length L (x operation histories within the "
                        "deviation bound); yylineno compared with the newline counter of the model at every action and after every operation")
-    ck.assumptions += ["'^' rules together with yyless/yyunput are not generated", "per-buffer line numbers under buffer switching are C11's job"]
+    ck.assumptions += ["'^' rules together with yyless/yyunput are not generated", "the count of a buffer that is given a new file (yyrestart, new yyin) continues: nothing in the property resets it"]
     ck.guard(tot["executions"] > 50000, "too few executions: %d" % tot["executions"])
     return ck.finish()
